@@ -136,10 +136,11 @@ static inline Song gen_song(Rng &r, const SongOpts &o)
                 static const uint8_t mt[] = {0x01, 0x02, 0x04, 0x05, 0x06, 0x07, 0x58, 0x59, 0x7F, 0x20, 0x21, 0x54};
                 uint8_t type = r.pick(mt);
                 std::string tag = vfmt("t%d#%d", t, serial);
-                if(type == 0x58) { std::vector<uint8_t> d; d.push_back(4); d.push_back(2); d.push_back(24); d.push_back(8); e = mk_meta(tick, type, d); }
-                else if(type == 0x59) { std::vector<uint8_t> d; d.push_back((uint8_t)r.range(0, 7)); d.push_back((uint8_t)r.below(2)); e = mk_meta(tick, type, d); }
-                else if(type == 0x20 || type == 0x21) { std::vector<uint8_t> d; d.push_back((uint8_t)r.below(16)); e = mk_meta(tick, type, d); }
-                else if(type == 0x54) { std::vector<uint8_t> d(5, (uint8_t)serial); e = mk_meta(tick, type, d); }
+                // every meta payload names its track so that delivered events can be attributed (vseq.hpp track_of)
+                if(type == 0x58) { std::vector<uint8_t> d; d.push_back(4); d.push_back(2); d.push_back(24); d.push_back((uint8_t)t); e = mk_meta(tick, type, d); }
+                else if(type == 0x59) { e = mk_meta_text(tick, 0x05, tag); }
+                else if(type == 0x20 || type == 0x21) { std::vector<uint8_t> d; d.push_back((uint8_t)t); e = mk_meta(tick, type, d); }
+                else if(type == 0x54) { std::vector<uint8_t> d(5, (uint8_t)serial); d[0] = (uint8_t)t; e = mk_meta(tick, type, d); }
                 else e = mk_meta_text(tick, type, tag);
             }
             else if(kind < 98 && o.sysex_meta)
